@@ -44,7 +44,7 @@ def plan(tier, seed):
     meta = {"alphabet": {"prefixes": len(groups), "option_tuples": len(opts), "G": 27, "scale_pairs": 9,
                          "R": "all primitive_symmetry.reciprocal_operations"},
             "bound": "complete product", "exhaustive": True,
-            "not_covered": ["q-points outside the q-set", "NAC (see C08)"]}
+            "not_covered": ["q-points outside the q-set", "NAC limits (see C08; here only Hermiticity, time reversal and point-group invariance with NAC)"]}
     return groups, meta
 
 
@@ -210,6 +210,44 @@ def run_case(case, seed, c, st):
         nz = int((np.abs(s0) <= 1e-9 * scale).sum())
         if nz < 3:
             return fail("sum-rule", "only %d eigenvalues vanish at Gamma: %s" % (nz, s0[:4].tolist()), float(np.sort(np.abs(s0))[2] / scale))
+    # 4b the same relations with the non-analytical term correction switched on (Wang and Gonze-Lee), Born tensors that are
+    # not symmetric matrices and a general dielectric tensor (phonopy symmetrises both with the crystal's operations)
+    if lang == "C" and symmetric and c.get("polar") and case["layout"] == "full" and case["fck"] == "springs-nn" and case["variant"] != "typed7":
+        gn = np.random.default_rng(41 + seed)
+        nat = len(ph.primitive)
+        born = gn.normal(size=(nat, 3, 3)) * 0.5 + np.array([np.eye(3) * (1.4 if i % 2 == 0 else -1.4) for i in range(nat)])
+        born -= born.mean(axis=0)
+        eps = np.eye(3) * 2.8 + 0.3 * gn.normal(size=(3, 3))
+        # both correction schemes depend on the supercell (Wang: the term is spread over the supercell images; Gonze-Lee: the
+        # short-range part is fitted at the commensurate points): only operations that also map the supercell lattice apply
+        Lp_ = np.asarray(ph.primitive.cell)
+        Sp_ = np.rint(np.asarray(ph.supercell.cell) @ np.linalg.inv(Lp_)).astype(int).T
+        ops_n = [R for R in ph.primitive_symmetry.reciprocal_operations
+                 if np.abs(np.array([Sp_.T @ (np.asarray(R, float) @ qc) for qc in comm]) - np.rint(np.array([Sp_.T @ (np.asarray(R, float) @ qc) for qc in comm]))).max() < 1e-8]
+        try:
+            for method in ("wang", "gonze"):
+                ph.force_constants = fc.copy()
+                ph.nac_params = {"born": born.copy(), "dielectric": eps.copy(), "factor": 14.399652, "method": method}
+                for q in base[8:11]:
+                    Dq = np.array(ph.get_dynamical_matrix_at_q(q))
+                    trans[0] += 1
+                    sc_n = max(np.abs(Dq).max(), 1e-12)
+                    e = np.abs(Dq - Dq.conj().T).max() / sc_n
+                    if e > TOL:
+                        return fail("hermitian/nac=%s" % method, "|D-D^H|/scale=%.3g at q=%s with NAC" % (e, q.tolist()), e)
+                    e = np.abs(np.array(ph.get_dynamical_matrix_at_q(-q)) - Dq.conj()).max() / sc_n
+                    if e > TOL:
+                        return fail("time-reversal/nac=%s" % method, "|D(-q)-conj D(q)|/scale=%.3g at q=%s with NAC" % (e, q.tolist()), e)
+                    s0 = _spec(Dq)
+                    for R in ops_n:
+                        s1 = _spec(np.array(ph.get_dynamical_matrix_at_q(np.asarray(R, float) @ q)))
+                        trans[0] += 1
+                        # Gonze-Lee: the truncated reciprocal sum is invariant to its own precision only (cf. C08)
+                        e = np.abs(s1 - s0).max() / max(np.abs(s0).max(), 1e-12)
+                        if e > (1e-8 if method == "wang" else 5e-5):
+                            return fail("point-group/nac=%s" % method, "spectrum changes by %.3g (rel) under q -> Rq with NAC, R=%s, q=%s" % (e, np.asarray(R).tolist(), q.tolist()), e)
+        finally:
+            ph.nac_params = None
     # 5b the relations do not depend on how the caller stores the q-points (views, Fortran order, slices of tables)
     if lang == "C":
         from vtk.alphabet import qsets as QL
